@@ -39,9 +39,15 @@ def main():
     feat = " --features rayon,serde" if prop in ("C15", "C16") else ""
     run = ("cargo test --offline%s --test %s" % (feat, name)) if kind == "test" else ("timeout 120 cargo run --offline --release --example %s" % name)
     rc_with, out_with = sh("timeout 600 " + run, cwd=wt)
-    sh("git stash push -- src", cwd=wt)
+    # (no `git stash`: the stash is shared by all worktrees of a repository)
+    rc, saved = sh("git diff -- src", cwd=wt)
+    tmp = os.path.join(wt, ".seed_saved.diff")
+    open(tmp, "w").write(saved)
+    sh("git checkout -- src", cwd=wt)
     rc_without, out_without = sh("timeout 600 " + run, cwd=wt)
-    sh("git stash pop", cwd=wt)
+    rc, out = sh("git apply .seed_saved.diff", cwd=wt)
+    assert rc == 0, out
+    os.remove(tmp)
     meta["demo_fails_with_change"] = rc_with != 0
     meta["demo_passes_without_change"] = rc_without == 0
     meta["ran"].append("%s with change: exit %d; without: exit %d" % (run, rc_with, rc_without))
